@@ -221,4 +221,40 @@ func (s *ResettableKeystore) ResetCids(ctx context.Context, keysChan <-chan cid.
   ghost at send(s.resetOps): $pending = $pending + 1
   ghost at recv(opsChan): $pending = $pending - 1
   ghost at go(func): assert(true)
+
+# ---- writes into the alternate datastore during a reset (C20) -----------------
+# blind: every key is written under its own datastore key, then committed
+func (s *ResettableKeystore) altPutBlind(ctx context.Context, keys []mh.Multihash) error
+  props C20
+  ghostvar $puts int = 0
+  ghostvar $committed bool = false
+  ghostvar $dsk ds.Key = any
+  modifies *
+  ensures [every-key-written-and-committed] imp(result == nil && len(keys) > 0, $puts == len(keys) && $committed)
+  loop over keys invariant $puts == $key && !$committed
+  ghost at before call(dsKey): assert($arg1 == s.prefixBits)
+  ghost at call(dsKey): $dsk = $ret0
+  ghost at before call(Put): assert($arg1 == $dsk && $arg2 == h)
+  ghost at call(Put): $puts = $puts + ite($ret0 == nil, 1, 0)
+  ghost at call(Commit): $committed = ($ret0 == nil)
+
+# checked: a key is written only if the alternate datastore does not hold it yet,
+# duplicates inside the call are written once, and the alternate size grows by
+# exactly the number of keys written, only after the commit
+func (s *ResettableKeystore) altPutChecked(ctx context.Context, keys []mh.Multihash) error
+  props C20
+  ghostvar $has bool = true
+  ghostvar $puts int = 0
+  ghostvar $committed bool = false
+  ghostvar $dsk ds.Key = any
+  modifies *
+  loop over keys invariant seen != nil && added == $puts && !$committed && all(j, 0, $key, has(seen, str(keys[j])))
+  ghost at before call(dsKey): assert($arg1 == s.prefixBits)
+  ghost at call(dsKey): $dsk = $ret0
+  ghost at before call(Has): assert($arg1 == $dsk)
+  ghost at call(Has): $has = $ret0 || $ret1 != nil
+  ghost at before call(Put): assert(!$has && $arg1 == $dsk && $arg2 == h)
+  ghost at call(Put): $puts = $puts + ite($ret0 == nil, 1, 0)
+  ghost at call(Commit): $committed = ($ret0 == nil)
+  ghost at before call(Add): assert($committed && $arg0 == $puts)
 @*/
